@@ -667,8 +667,15 @@ Example ecs_example : forall premask,
   wf_ecs (mkEcs 1 24 9 (first_v4 + 167838208)).
 Proof.
   intro premask.
-  repeat match goal with |- _ /\ _ => split end;
-    try (destruct premask; vm_compute; reflexivity).
+  repeat match goal with |- _ /\ _ => split end.
+  1-10: destruct premask; vm_compute; reflexivity.
   - apply gl_lpm_is_lpm.
-  - right; left. vm_compute. repeat split; try reflexivity. discriminate.
+  - right; left. cbn [e_fam e_src e_addr]. split; [reflexivity|]. split; [discriminate|]. vm_compute. reflexivity.
+Qed.
+
+Lemma lpm_is_longest_declared : forall S f a p loc len, lpm S f a p = Some (loc, len) ->
+  (exists s, In s S /\ eligible f a p s = true /\ s_loc s = loc /\ s_len s = len) /\
+  (forall s, In s S -> eligible f a p s = true -> s_len s <= len).
+Proof.
+  intros S f a p loc len H. split; [exact (lpm_sound S f a p loc len H)|exact (lpm_longest S f a p loc len H)].
 Qed.
